@@ -44,6 +44,8 @@ func main() {
 		replay(os.Args[2:])
 	case "post":
 		post(os.Args[2:])
+	case "full":
+		full(os.Args[2:])
 	default:
 		fmt.Fprintln(os.Stderr, "unknown mode")
 		os.Exit(2)
